@@ -763,3 +763,79 @@ func definedIn(info *types.Info, body *ast.BlockStmt, o types.Object) bool {
 	}
 	return set[o]
 }
+
+// FieldDef: for v.f with v a local that has a single definition which is a composite literal (possibly behind &) and no
+// later store into v.f (or v as a whole), the value the literal gives to f; nil otherwise. The definition statement is returned
+// too, so that the caller can ask where it sits.
+func (g *FG) FieldDef(e ast.Expr) (ast.Expr, ast.Node) {
+	sel, ok := unparen(e).(*ast.SelectorExpr)
+	if !ok {
+		return nil, nil
+	}
+	v := objOf(g.Info, sel.X)
+	if v == nil {
+		return nil, nil
+	}
+	def := g.LocalDef(v)
+	if def == nil {
+		return nil, nil
+	}
+	d := unparen(def)
+	if u, isU := d.(*ast.UnaryExpr); isU && u.Op == token.AND {
+		d = unparen(u.X)
+	}
+	cl, isCL := d.(*ast.CompositeLit)
+	if !isCL {
+		return nil, nil
+	}
+	fv, _ := fieldOf(g.Info, sel)
+	if fv == nil {
+		return nil, nil
+	}
+	// no store into the field
+	written := false
+	ast.Inspect(g.F.Body(), func(n ast.Node) bool {
+		switch s := n.(type) {
+		case *ast.AssignStmt:
+			for _, l := range s.Lhs {
+				if f2, base := fieldOf(g.Info, l); f2 == fv && base != nil && sameVar(g.Info, base, v) {
+					written = true
+				}
+			}
+		case *ast.IncDecStmt:
+			if f2, base := fieldOf(g.Info, s.X); f2 == fv && base != nil && sameVar(g.Info, base, v) {
+				written = true
+			}
+		}
+		return !written
+	})
+	if written {
+		return nil, nil
+	}
+	var val ast.Expr
+	for _, el := range cl.Elts {
+		kv, isKV := el.(*ast.KeyValueExpr)
+		if !isKV {
+			return nil, nil
+		}
+		if id, isID := kv.Key.(*ast.Ident); isID && g.Info.Uses[id] == types.Object(fv) {
+			val = kv.Value
+		}
+	}
+	if val == nil {
+		return nil, nil
+	}
+	// the statement holding the definition
+	var stmt ast.Node
+	ast.Inspect(g.F.Body(), func(n ast.Node) bool {
+		if as, isAs := n.(*ast.AssignStmt); isAs {
+			for _, r := range as.Rhs {
+				if unparen(r) == unparen(def) || r == def {
+					stmt = as
+				}
+			}
+		}
+		return stmt == nil
+	})
+	return val, stmt
+}
